@@ -331,6 +331,20 @@ def origin_matches(fn, steps, spec):
                 if not origin_matches(fn, fn.origin(a), sp):
                     return False
         return True
+    if "range" in spec:
+        # a Range / RangeTo / RangeFrom literal whose bounds match: {"range": {"start": spec, "end": spec}}
+        if last[0] != "agg":
+            return False
+        adt = last[1][1].get("adt", "") or ""
+        ops = last[1][2]
+        want = spec["range"]
+        m = re.search(r"ops::range::(RangeTo|RangeFrom|Range)$", adt)
+        if not m:
+            return False
+        have = {"RangeTo": ("end",), "RangeFrom": ("start",), "Range": ("start", "end")}[m.group(1)]
+        if set(have) != set(want):
+            return False
+        return all(origin_matches(fn, fn.origin(o), want[nm]) for nm, o in zip(have, ops))
     if "param" in spec:
         if last[0] != "arg":
             return False
@@ -359,6 +373,33 @@ def is_len_origin(fn, steps):
     if last[0] == "other" and isinstance(last[1], list) and last[1] and last[1][0] == "len":
         return True
     return False
+
+
+def closure_true_needs(prog, fn, call, inner):
+    """the closure argument of `call`: every return site that can yield `true` is dominated by `inner`"""
+    from . import paths
+    cdef = None
+    for a in call.args:
+        for st in fn.origin(a):
+            if st[0] == "agg" and st[1][1].get("k") == "closure":
+                cdef = st[1][1]["def"]
+    if cdef is None:
+        return False, "is not a closure literal whose body can be read"
+    cf = prog.fns.get(cdef)
+    if cf is None:
+        return False, "%s has no analysed body" % cdef
+    sites = paths.ret_sites(cf)
+    if not sites:
+        return False, "has no readable return site"
+    n = 0
+    for bb, kind, payload in sites:
+        if kind == "const" and str(payload.get("v")) == "0":
+            continue
+        ok, why = verify_with_facts(prog, cf, facts_at(cf, prog, bb), inner)
+        if not ok:
+            return False, "can return true at %s without the required test (%s)" % (cf.loc(cf.blocks[bb]["t"].get("sp")), why)
+        n += 1
+    return True, "its predicate closure returns true only under the required test (%d return site(s))" % n
 
 
 def verify_with_facts(prog, fn, facts, spec):
@@ -457,7 +498,14 @@ def verify(prog, fn, bb, sink, spec, _facts_override=None):
     if k == "boolcall":
         for f in facts:
             if f.kind == "boolcall" and f.truth == spec.get("truth", True) and re.search(spec["call"], f.call.callee or ""):
-                return True, "dominated by `%s` == %s (bb%d)" % (f.call.name, f.truth, f.sw_bb)
+                extra = ""
+                if "closure_true_needs" in spec:
+                    # the predicate closure handed to the call may answer `true` only where the inner guard holds
+                    ok, why = closure_true_needs(prog, fn, f.call, spec["closure_true_needs"])
+                    if not ok:
+                        return False, "`%s` is tested, but its predicate closure %s" % (f.call.name, why)
+                    extra = "; " + why
+                return True, "dominated by `%s` == %s (bb%d)%s" % (f.call.name, f.truth, f.sw_bb, extra)
         return False, "no dominating %s edge of a call matching /%s/" % (spec.get("truth", True), spec["call"])
     if k == "int":
         for f in facts:
